@@ -276,6 +276,12 @@ def run(ck):
             ew.append(('r2047', b'=?x?Q?' + bytes(t) + b'?='))
             if n <= maxlen - 1:
                 ew.append(('r2047', b'a =?x?q?' + bytes(t) + b'?= =?x?Q?' + bytes(t[:2]) + b'?= b'))
+    # B encoded words: every payload of length <= maxlen over base64-relevant characters, as the first and as a later word
+    for n in range(maxlen + 1):
+        for t in itertools.product(b'QUA=/ x', repeat=n):
+            ew.append(('r2047', b'=?x?B?' + bytes(t) + b'?='))
+            if n <= 2:
+                ew.append(('r2047', b'=?x?b?QQ==?= =?x?B?' + bytes(t) + b'?= t'))
     compare(ck, ew, drv, model, 'exhaustive encoded-word payloads<=%d' % maxlen, stats)
     nrand = 4000 if ck.tier == 'quick' else 200000
     rnd = []
@@ -291,7 +297,7 @@ def run(ck):
     ck.coverage.update({
         'evaluations': stats['evaluations'],
         'distinct_nontrivial': len(stats['nontrivial']),
-        'rule': 'all strings of length <= %d over the alphabet %r for each of the 3 decoders (exhaustive), every Q encoded word whose payload is a string of that length over "=_5F23Dfa " (alone and next to a second word), '
+        'rule': 'all strings of length <= %d over the alphabet %r for each of the 3 decoders (exhaustive), every Q encoded word whose payload is a string of that length over "=_5F23Dfa " and every B encoded word over "QUA=/ x" (alone and next to a second word), '
                 'plus %d structured random strings per decoder (valid quanta, padding variants, foreign characters, '
                 'truncations, encoded-word fragments); non-trivial = contains >= 2 alphabet characters (b64), an "=" (qp), '
                 'an "=?" (rfc2047); distinct = distinct (decoder, input) pairs' % (maxlen, ALPHABET.decode(), nrand),
